@@ -66,7 +66,7 @@ def dense_py(cx, skel_runs, genome, prefix):
 RUNSETS = {"g1": [[], [0], [0, 0]], "g2": [[0], [1], [0, 1], [0, 0, 1]], "g3": [[0, 2], [1], [0, 1, 2]], "g1b": [[0, 0, 0]]}
 
 UNARY = ("to_dict", "sum", "add_scalar", "mul3", "lt_scalar", "eq_scalar", "neg_mask", "roundtrip", "mask_roundtrip",
-         "rsub_scalar", "rlt_scalar", "float_dense", "iv_pileup", "iv_mask", "iv_pileup_sub", "iv_pileup_neg", "float_close_mul2")
+         "rsub_scalar", "rlt_scalar", "float_dense", "iv_pileup", "iv_mask", "iv_pileup_sub", "iv_pileup_neg", "float_close_mul2", "bool_bedgraph_not")
 CLOSE = [0.75, 0.750001, 2e-9]   # doubles that differ by less than np.isclose's tolerances (from each other / from 0): they are still different values
 FLOATS = [0.7, 0.1, 2.5]      # values of the float track (record i carries FLOATS[i]): a larger value followed by smaller non-dyadic ones
 BINARY = ("add", "sub", "lt", "and", "or")
@@ -153,6 +153,16 @@ class Track(Harness):
             if op == "float_close_mul2":
                 Fl = Fl * 2       # an arithmetic ufunc on the run-length representation (doubling is exact in IEEE arithmetic)
             return dict(fdense={kk: [v for v in ctx.lst(vv)] for kk, vv in Fl.to_dict().items()})
+        if op == "bool_bedgraph_not":
+            # a bedGraph whose values are booleans (value of record i: v_i > 0): the track is a boolean array, and so is its negation
+            import bionumpy as bnp
+            from bionumpy.datatypes import BedGraph
+            from bionumpy.genomic_data.genomic_track import GenomicArray
+            names, n = list(genome), len(skel["a"])
+            bg = BedGraph([names[c] for c in skel["a"]], ctx.arr([x[f"as{i}"] for i in range(n)], "int64"),
+                          ctx.arr([x[f"ae{i}"] for i in range(n)], "int64"), ctx.arr([x[f"av{i}"] for i in range(n)], "int64") > 0)
+            Bt = GenomicArray.from_bedgraph(bg, bnp.Genome.from_dict(dict(genome))._genome_context)
+            return dict(dense=dd(~Bt), track=dd(Bt))
         if op in ("iv_pileup", "iv_mask", "iv_pileup_sub", "iv_pileup_neg"):
             # the array built from INTERVALS (the records' boundaries, values ignored): touching intervals give equal neighbouring depths
             import bionumpy as bnp
@@ -255,6 +265,11 @@ class Track(Harness):
             return False
         if b is not None and not cmp_dense(out["b"], b, False):
             return False
+        if op == "bool_bedgraph_not":
+            pos = {nm: [t > 0 for t in a[nm]] for nm in names}
+            neg = {nm: [z3.Not(t > 0) for t in a[nm]] for nm in names}
+            ok = cmp_dense(out["track"], pos, True) and cmp_dense(out["dense"], neg, True)
+            return z_and(conj) if ok else False
         if op in ("iv_pileup", "iv_mask", "iv_pileup_sub", "iv_pileup_neg"):
             exp = {}
             for ci, nm in enumerate(names):
@@ -319,6 +334,14 @@ class Track(Harness):
                 for p in range(s, e):
                     re[c][p] = True if boolean else r["value"][j]
             return None if re == exp else f"{op}: records {r} expand to {re}, dense array is {exp} ({desc})"
+        if op == "bool_bedgraph_not":
+            pos = {nm: [v > 0 for v in a[nm]] for nm in names}
+            neg = {nm: [not v for v in pos[nm]] for nm in names}
+            gt = {nm: [bool(v) for v in col] for nm, col in cout["track"].items()}
+            gn = {nm: [bool(v) for v in col] for nm, col in cout["dense"].items()}      # truth value of every base of ~track
+            if gt != pos or gn != neg:
+                return f"track from a bedGraph with boolean values {recs('a', skel['a'])} ({desc}): track {cout['track']}, ~track {cout['dense']}; expected the truth values {pos} and {neg}"
+            return None
         if op in ("iv_pileup", "iv_mask", "iv_pileup_sub", "iv_pileup_neg"):
             exp = {}
             for ci, nm in enumerate(names):
